@@ -245,6 +245,8 @@ VARIANTS = [
     V("eager arg reductions run their kernel in the final dtype", ("C19",), "R-INTINDEX", "aggregations.py", '        agg.dtype["numpy"] = (np.dtype(np.intp),)\n', '', must_mention="N-d"),
     V("numpy-engine nanmax answers all-NaN groups with NaN", ("C06", "C04"), "R-ALLNANFILL", "aggregate_npg.py", 'def nansum(group_idx, array, engine, *, axis=-1, size=None, fill_value=None, dtype=None):', 'def _nan_minmax(group_idx, array, engine, *, func, axis=-1, size=None, fill_value=None, dtype=None):\n    aggregate = _get_aggregate(engine).aggregate\n    result = aggregate(group_idx, array, axis=axis, func=func, size=size, fill_value=fill_value, dtype=dtype)\n    allnan = aggregate(group_idx, np.isnan(array), axis=axis, func="all", size=size, fill_value=False)\n    result[allnan] = np.nan\n    return result\n\n\nnanmax = partial(_nan_minmax, func="nanmax")\nnanmin = partial(_nan_minmax, func="nanmin")\n\n\ndef nansum(group_idx, array, engine, *, axis=-1, size=None, fill_value=None, dtype=None):', must_mention="NaN-propagating"),
     V("scan entry point no longer refuses missing labels for nancumsum", ("C10", "C19"), "R-SCANMISSING", "core.py", '    if agg.name in ["cumsum", "nancumsum"] and not is_duck_dask_array(by_) and (by_ == -1).any():', '    if False:', must_mention="missing"),
+    V("unknown labels refused for one reduced axis only", ("C08", "C12"), "R-PARTIALUNKNOWN", "core.py", '    if nax < by_.ndim and expected_ is None:', '    if nax == 1 and by_.ndim > 1 and expected_ is None:', must_mention="two of three"),
+    V("twin: partial-axis test written as an inequality of the two counts", ("C08", "C12"), "", "core.py", '    if nax < by_.ndim and expected_ is None:', '    if expected_ is None and nax != by_.ndim:', expect="silent"),
     V("dtype promotion memoised with an untyped key", ("C14",), "R-MEMO", "xrdtypes.py", '        dtype = np.result_type(dtype, fill_value)\n    return dtype\n',
       '        dtype = _promote_for_fill_value(dtype, fill_value)\n    return dtype\n\n\n@functools.lru_cache\ndef _promote_for_fill_value(dtype: np.dtype, fill_value) -> np.dtype:\n    return np.result_type(dtype, fill_value)\n', must_mention="typed"),
     V("twin: dtype promotion memoised with typed=True", ("C14",), "", "xrdtypes.py", '        dtype = np.result_type(dtype, fill_value)\n    return dtype\n',
